@@ -28,6 +28,8 @@ from . import scripts as S, formats, abscheck, meta as M
 KEEP = ("ret=", "open=", "len=", "err=", "msg=", "bad-", "meta ", "CRASH", "ABORT", "TIMEOUT")
 WAVLIKE = (0x01, 0x13, 0x22)
 SETTER_FALSE = {0x10F1, 0x1400, 0x10CF, 0x10D1, 0x1101, 0x1050, 0x1200}
+KF_CHMAP = "KF-C09-CHMAP-REFUSED-KEPT"
+STATE = {"chmap_waived": False}      # set by run(): true only while the entry's witness still fails on the tree under test
 
 
 class Ins:
@@ -48,8 +50,9 @@ def refused(ins, out):
         return ret not in ("0", None)
     if ins.kind == "cmd":
         cid = int(ins.line.split()[2], 16)
-        if cid == 0x1101:
-            # on a container without a command hook a VALID channel map is stored and SF_FALSE returned (no error): not a refusal
+        if cid == 0x1101 and STATE["chmap_waived"]:
+            # KF-C09-CHMAP-REFUSED-KEPT: where the container cannot store it a VALID channel map is kept and SF_FALSE returned without an
+            # error; while that finding is open such an answer is not counted as a refusal (the call stays in the base history)
             return ret == "0" and err not in ("0", None)
         if cid in SETTER_FALSE:
             return ret == "0"
@@ -135,6 +138,8 @@ def invalid_calls(rng, f, ch, mode, late, ty):
     good_map = struct.pack("<%di" % ch, *[(3 + k) % 20 + 1 for k in range(ch)])
     c.append(Ins(M.cmd_line(h, 0x1101, good_map + b"\0\0\0\0"), "cmd", "0", True, "SFC_SET_CHANNEL_MAP_INFO of the wrong size"))
     c.append(Ins(M.cmd_line(h, 0x1101, struct.pack("<%di" % ch, *([rng.choice([0, -1, 27, 99])] + [1] * (ch - 1)))), "cmd", "0", True, "SFC_SET_CHANNEL_MAP_INFO with an invalid entry"))
+    if not late:
+        c.append(Ins(M.cmd_line(h, 0x1101, good_map), "cmd", "0", False, "SFC_SET_CHANNEL_MAP_INFO with a valid map (refused where the container cannot store it)"))
     c.append(Ins("setstr %s 1 null" % h, "setstr", "!0", False, "sf_set_string with NULL"))
     c.append(Ins("setstr %s %d %s" % (h, rng.choice([0, 11, 15, 99]), b"refused".hex()), "setstr", "!0", False, "sf_set_string with an unknown type"))
     c.append(Ins("cmd %s 1200 %d null" % (h, rng.choice([5, 0x42, 1000])), "cmd", "0", False, "SFC_WAVEX_SET_AMBISONIC with an undefined value"))
@@ -279,6 +284,11 @@ def run_driver(ctx, text):
 def run(ctx, quick=True):
     """returns True if a violation was reported"""
     rng = ctx.rng
+    STATE["chmap_waived"] = False
+    for kf in ctx.known:
+        if kf.get("id") == KF_CHMAP and kf.get("status") == "known" and ctx.witness_still_fails(kf):
+            STATE["chmap_waived"] = True
+            ctx.known_finding(kf)
     fs = [f for f in formats.writable_formats(ctx) if f.major != 0x16]
     if quick:
         # one byte-order variant (seeded) of every (container, codec) pair; the thorough tier runs them all
@@ -298,6 +308,8 @@ def run(ctx, quick=True):
         built.append(("%s-%s-%d" % (f.name, mode, i), f, ch, mode, L, marks))
     tw = ctx.batch([(n + "-twin", "\n".join(L) + "\n") for (n, f, ch, mode, L, marks) in built], workers=6)
     stage2, found, reported = [], False, set()
+    marks_of = dict((n, marks) for (n, f, ch, mode, L, marks) in built)
+    ch_of = dict((n, ch) for (n, f, ch, mode, L, marks) in built)
     stats = {"twins": 0, "inserted": 0, "refused": 0, "accepted_maybe": 0, "open_refused": 0, "classes": set(), "must_classes": set()}
 
     def report(name, f, kind, text, script):
@@ -307,7 +319,12 @@ def run(ctx, quick=True):
             return
         reported.add(key)
         found = True
-        ctx.violation("c09twin-%s-%s" % (name, re.sub(r"\W+", "_", kind)[:40]), "# C09 (twin run): %s\n# format %s\n# %s\n--- script\n%s" % (kind, f.name, text, script))
+        n = script.count("\n")
+        m = marks_of.get(name, {})
+        ctx.violation("c09twin-%s-%s" % (name, re.sub(r"\W+", "_", kind)[:40]),
+                      "# C09 (twin run): %s\n# format %s\n# %s\n# re-run: bin/check C09 --replay <this file> (runs the script, then the same script without the calls it saw refused, and compares)\n"
+                      "c09-twin ch=%d\ntwin-inserted %s\ntwin-must %s\n--- script\n%s"
+                      % (kind, f.name, text, ch_of.get(name, 1), ",".join(str(k) for k in sorted(m) if k < n), ",".join(str(k) for k in sorted(m) if k < n and m[k].must and not m[k].late), script))
 
     for (name, f, ch, mode, L, marks) in built:
         out = _filter(tw.get(name + "-twin", []))
@@ -377,3 +394,50 @@ def run(ctx, quick=True):
                               "open_refused": stats["open_refused"], "classes": len(stats["classes"]), "rejected_by_lean_predicate": nbad,
                               "formats": len([t for t in ctx.distinct if t.startswith("twin:")])}
     return found
+
+
+def is_replay(text):
+    return "\nc09-twin " in text or text.startswith("c09-twin ")
+
+
+def replay(ctx, path):
+    """re-run a twin replay: the script as it is, then without the inserted calls that were refused; every common line must agree"""
+    text = open(path).read()
+    head, script = text.split("--- script", 1)
+    L = [l for l in script.strip().split("\n") if l.strip()]
+    kv = dict(l.split(" ", 1) for l in head.split("\n") if l.startswith(("c09-twin", "twin-inserted", "twin-must")))
+    ch = int(abscheck.parse_kv(kv.get("c09-twin", "ch=1")).get("ch", "1"))
+    ins_at = [int(x) for x in kv.get("twin-inserted", "").split(",") if x.strip()]
+    must = set(int(x) for x in kv.get("twin-must", "").split(",") if x.strip())
+    STATE["chmap_waived"] = any(k.get("id") == KF_CHMAP and k.get("status") == "known" and ctx.witness_still_fails(k) for k in ctx.known)
+    out = _filter(ctx.batch([("twin", "\n".join(L) + "\n")], workers=1).get("twin", []))
+    bad = []
+    if len(out) < len(L):
+        bad.append("the script dies at line %d `%s`: %s" % (len(out), L[min(len(out), len(L) - 1)][:80], out[-1:] or ""))
+    drop = set()
+    for k in ins_at:
+        if k >= len(out):
+            continue
+        ins = Ins(L[k], L[k].split()[0], "", k in must, "inserted call")
+        if refused(ins, out[k]):
+            drop |= {k, k + 1}
+            kv2 = abscheck.parse_kv(out[k + 1]) if k + 1 < len(out) else {}
+            if k in must and (abscheck.parse_kv(out[k]).get("err") in ("0", None) or kv2.get("msglen") in (None, "0", "-1")):
+                bad.append("line %d `%s`: refused without an error code / message: %s | %s" % (k, L[k][:70], out[k][:80], out[k + 1] if k + 1 < len(out) else ""))
+        elif k in must:
+            bad.append("line %d `%s`: an invalid call was not refused: %s" % (k, L[k][:70], out[k][:100]))
+    kept = [k for k in range(min(len(L), len(out))) if k not in drop]
+    bout = _filter(ctx.batch([("base", "\n".join(L[k] for k in kept) + "\n")], workers=1).get("base", []))
+    for bi, k in enumerate(kept):
+        a = _ess(L[k], bout[bi], ch) if bi < len(bout) else "<missing>"
+        b = _ess(L[k], out[k], ch)
+        print("%3d %-40s %s" % (k, L[k][:40], b[:120]))
+        if a != b:
+            bad.append("line %d `%s` answers `%s` with the refused calls, `%s` without them" % (k, L[k][:60], b[:200], a[:200]))
+            break
+    for b in bad:
+        print("replay: " + b)
+    if bad:
+        ctx.report(path)
+    else:
+        print("replay: every refused call left every later answer and the closed file unchanged on this tree")
